@@ -73,98 +73,154 @@ theorem run_emits_held (i e n : Nat) (l : Ledger) (rest : List Ev) :
 /-- no-emit turn (`emits = 0`): nothing to restore -/
 theorem emitEvents_zero (i e : Nat) : emitEvents i e 0 = [] := rfl
 
-/-- **turn_balanced**: whatever a turn does — cast or not, any number of emits, error, panic,
-finish, cancel — its events leave the ledger exactly as they found it, take at most one sample,
-and that sample sees only this turn's cast batch on top of what was there before. -/
+def ownedBytes (c : CastOutcome) (ei : ExtIn) (sz : Sizes) : Nat :=
+  if c = .ok then sz.c else if ei = .ok then sz.x else 0
+
+theorem outstanding_owned (c : CastOutcome) (ei : ExtIn) (sz : Sizes) (i : Nat) (l : Ledger) :
+    outstanding (ownedInput c ei sz i ++ l) = outstanding l + ownedBytes c ei sz := by
+  unfold ownedInput ownedBytes
+  split
+  · simp [outstanding]; omega
+  · split <;> simp [outstanding]; omega
+
+/-- resolving and casting the input leaves exactly the owned replacement on top of the ledger -/
+theorem run_pre (c : CastOutcome) (ei : ExtIn) (sz : Sizes) (i : Nat) (l : Ledger) (rest : List Ev) :
+    run l (preEvents c ei sz i ++ rest) = run (ownedInput c ei sz i ++ l) rest := by
+  cases c <;> cases ei <;> simp [preEvents, ownedInput, run, release]
+
+theorem run_post (c : CastOutcome) (ei : ExtIn) (sz : Sizes) (i : Nat) (l : Ledger) (rest : List Ev) :
+    run (ownedInput c ei sz i ++ l) (postEvents c ei i ++ rest) = run l rest := by
+  cases c <;> cases ei <;> simp [postEvents, ownedInput, run, release]
+
+/-- the turn never reaches its handler: cancel, external resolve error, cast error -/
+def noHandler (k : Kind) (w : Wire) (t : Turn) : Prop :=
+  t.end = .cancel ∨ t.extIn = .err ∨ castOf k w t.bad = .fail
+
+instance (k : Kind) (w : Wire) (t : Turn) : Decidable (noHandler k w t) := by unfold noHandler; infer_instance
+
+/-- **turn_balanced**: whatever a turn does — external input resolved or refused, cast or not, any
+number of emits, error, panic, finish, cancel, cap refusal, unserializable state, broken pipe — its
+events leave the ledger exactly as they found it, take at most one sample, and that sample sees only
+this turn's own replacement input (cast batch, else resolved batch) on top of what was there. -/
 theorem turn_balanced (k : Kind) (w : Wire) (sz : Sizes) (i : Nat) (t : Turn) (l : Ledger) (rest : List Ev) :
     run l ((turnEvents k w sz i t).1 ++ rest) =
       match run l rest with
       | some (l', s) =>
-        if t.end = .cancel ∨ castOf k w t.bad = .fail then some (l', s)
-        else some (l', (outstanding l + (if castOf k w t.bad = .ok then sz.c else 0)) :: s)
+        if noHandler k w t then some (l', s)
+        else some (l', (outstanding l + ownedBytes (castOf k w t.bad) t.extIn sz) :: s)
       | none => none := by
-  unfold turnEvents
-  by_cases hc : t.end = .cancel
-  · simp only [hc, if_true, List.nil_append, true_or]
+  have passthrough : ∀ (v : Nat), noHandler k w t → (match run l rest with
+      | some (l', s) => if noHandler k w t then some (l', s) else some (l', v :: s)
+      | none => none) = run l rest := by
+    intro v h
     cases run l rest with
     | none => rfl
-    | some p => rfl
-  · simp only [hc, if_false, false_or]
-    cases hco : castOf k w t.bad with
-    | fail =>
-      simp only [List.nil_append, if_true]
-      cases run l rest with
-      | none => rfl
-      | some p => rfl
-    | none =>
-      simp only [reduceCtorEq, if_false, List.nil_append, List.append_nil]
-      -- all four branches have the shape  sample :: emits ++ held? ++ rest
-      have key : ∀ tail : List Ev, (tail = (if t.emits ≥ 1 then [Ev.rel (.emit i 0)] else []) ∨ (tail = [] ∧ t.emits = 0)) →
-          run l ((Ev.sample :: emitEvents i sz.e t.emits ++ tail) ++ rest) =
-            match run l rest with
-            | some (l', s) => some (l', (outstanding l + 0) :: s)
-            | none => none := by
-        intro tail ht
-        simp only [List.cons_append, run]
-        have : run l (emitEvents i sz.e t.emits ++ tail ++ rest) = run l rest := by
-          rcases ht with ht | ⟨ht, h0⟩
-          · rw [ht]; exact run_emits_held i sz.e t.emits l rest
-          · rw [ht, h0]; simp [emitEvents]
-        rw [this]
-        cases run l rest with
-        | none => rfl
-        | some p => simp
-      split
-      · exact key _ (Or.inl rfl)
-      · split
-        · exact key _ (Or.inl rfl)
+    | some p => simp [h]
+  unfold turnEvents
+  by_cases hc : t.end = .cancel
+  · simp only [hc, if_true, List.nil_append]
+    exact (passthrough _ (Or.inl hc)).symm
+  · simp only [hc, if_false]
+    by_cases he : t.extIn = .err
+    · simp only [he, if_true, List.nil_append]
+      exact (passthrough _ (Or.inr (Or.inl he))).symm
+    · simp only [he, if_false]
+      cases hco : castOf k w t.bad with
+      | fail =>
+        simp only []
+        have hnh : noHandler k w t := Or.inr (Or.inr hco)
+        rw [passthrough _ hnh]
+        by_cases hok : t.extIn = .ok
+        · simp [hok, run, release]
+        · simp [hok]
+      | none =>
+        have hn : ¬ noHandler k w t := by
+          unfold noHandler; rw [hco]; simp [hc, he]
+        -- every branch is  pre ++ sample :: emits ++ tail ++ post  with tail = held or []
+        have key : ∀ tail : List Ev, (tail = (if t.emits ≥ 1 then [Ev.rel (.emit i 0)] else []) ∨ (tail = [] ∧ t.emits = 0)) →
+            run l ((preEvents .none t.extIn sz i ++ (Ev.sample :: emitEvents i sz.e t.emits) ++ tail ++
+              postEvents .none t.extIn i) ++ rest) =
+              match run l rest with
+              | some (l', s) => some (l', (outstanding l + ownedBytes .none t.extIn sz) :: s)
+              | none => none := by
+          intro tail ht
+          simp only [List.append_assoc]
+          rw [run_pre]
+          simp only [List.cons_append, run]
+          have : run (ownedInput .none t.extIn sz i ++ l) (emitEvents i sz.e t.emits ++ (tail ++ (postEvents .none t.extIn i ++ rest))) =
+              run l rest := by
+            rcases ht with ht | ⟨ht, h0⟩
+            · rw [ht, ← List.append_assoc, run_emits_held, run_post]
+            · rw [ht, h0]; simp only [emitEvents, List.nil_append]; rw [run_post]
+          rw [this, outstanding_owned]
+          cases run l rest with
+          | none => rfl
+          | some p => rfl
+        simp only [hn, if_false]
+        split
+        · simpa using key _ (Or.inl rfl)
         · split
-          · exact key _ (Or.inl rfl)
+          · simpa using key _ (Or.inl rfl)
           · split
-            · rename_i h0
-              have := key [] (Or.inr ⟨rfl, h0⟩)
-              simpa using this
-            · exact key _ (Or.inl rfl)
-    | ok =>
-      simp only [if_true]
-      have key : ∀ tail : List Ev, (tail = (if t.emits ≥ 1 then [Ev.rel (.emit i 0)] else []) ∨ (tail = [] ∧ t.emits = 0)) →
-          run l (([Ev.acq (.cast i) sz.c] ++ (Ev.sample :: emitEvents i sz.e t.emits) ++ tail ++ [Ev.rel (.cast i)]) ++ rest) =
-            match run l rest with
-            | some (l', s) => some (l', (outstanding l + sz.c) :: s)
-            | none => none := by
-        intro tail ht
-        simp only [List.cons_append, List.nil_append, List.append_assoc, run]
-        have : run ((Res.cast i, sz.c) :: l) (emitEvents i sz.e t.emits ++ (tail ++ (Ev.rel (.cast i) :: rest))) =
-            run l rest := by
-          rcases ht with ht | ⟨ht, h0⟩
-          · rw [ht, ← List.append_assoc, run_emits_held]
-            simp [run, release_head]
-          · rw [ht, h0]; simp [emitEvents, run, release_head]
-        rw [this]
-        cases run l rest with
-        | none => rfl
-        | some p => simp [outstanding]; omega
-      split
-      · exact key _ (Or.inl rfl)
-      · split
-        · exact key _ (Or.inl rfl)
+            · simpa using key _ (Or.inl rfl)
+            · split
+              · rename_i h0
+                have := key [] (Or.inr ⟨rfl, h0⟩)
+                simpa using this
+              · simpa using key _ (Or.inl rfl)
+      | ok =>
+        have hn : ¬ noHandler k w t := by
+          unfold noHandler; rw [hco]; simp [hc, he]
+        have key : ∀ tail : List Ev, (tail = (if t.emits ≥ 1 then [Ev.rel (.emit i 0)] else []) ∨ (tail = [] ∧ t.emits = 0)) →
+            run l ((preEvents .ok t.extIn sz i ++ (Ev.sample :: emitEvents i sz.e t.emits) ++ tail ++
+              postEvents .ok t.extIn i) ++ rest) =
+              match run l rest with
+              | some (l', s) => some (l', (outstanding l + ownedBytes .ok t.extIn sz) :: s)
+              | none => none := by
+          intro tail ht
+          simp only [List.append_assoc]
+          rw [run_pre]
+          simp only [List.cons_append, run]
+          have : run (ownedInput .ok t.extIn sz i ++ l) (emitEvents i sz.e t.emits ++ (tail ++ (postEvents .ok t.extIn i ++ rest))) =
+              run l rest := by
+            rcases ht with ht | ⟨ht, h0⟩
+            · rw [ht, ← List.append_assoc, run_emits_held, run_post]
+            · rw [ht, h0]; simp only [emitEvents, List.nil_append]; rw [run_post]
+          rw [this, outstanding_owned]
+          cases run l rest with
+          | none => rfl
+          | some p => rfl
+        simp only [hn, if_false]
+        split
+        · simpa using key _ (Or.inl rfl)
         · split
-          · exact key _ (Or.inl rfl)
+          · simpa using key _ (Or.inl rfl)
           · split
-            · rename_i h0
-              have := key [] (Or.inr ⟨rfl, h0⟩)
-              simpa using this
-            · exact key _ (Or.inl rfl)
+            · simpa using key _ (Or.inl rfl)
+            · split
+              · rename_i h0
+                have := key [] (Or.inr ⟨rfl, h0⟩)
+                simpa using this
+              · simpa using key _ (Or.inl rfl)
 
 /-- **stream_balanced**: a whole stream leaves the ledger as it found it, and every sample any of
-its handlers takes is the starting level plus at most that turn's own cast batch — nothing
-accumulates across turns. -/
+its handlers takes is the starting level plus at most that turn's own replacement input (its cast
+batch, or its externally resolved batch) — nothing accumulates across turns. -/
 theorem stream_balanced (k : Kind) (w : Wire) (sz : Sizes) : ∀ (turns : List Turn) (i : Nat) (l : Ledger),
     ∃ s, run l (streamEvents k w sz i turns) = some (l, s) ∧
-      ∀ x ∈ s, x = outstanding l ∨ x = outstanding l + sz.c
+      ∀ x ∈ s, x = outstanding l ∨ x = outstanding l + sz.c ∨ x = outstanding l + sz.x
   | [], i, l => ⟨[], rfl, by simp⟩
   | t :: rest, i, l => by
     obtain ⟨s, hs, hb⟩ := stream_balanced k w sz rest (i + 1) l
+    have hob : ∀ c ei, outstanding l + ownedBytes c ei sz = outstanding l ∨
+        outstanding l + ownedBytes c ei sz = outstanding l + sz.c ∨
+        outstanding l + ownedBytes c ei sz = outstanding l + sz.x := by
+      intro c ei; unfold ownedBytes
+      split
+      · exact Or.inr (Or.inl rfl)
+      · split
+        · exact Or.inr (Or.inr rfl)
+        · exact Or.inl rfl
     simp only [streamEvents]
     cases hgo : (turnEvents k w sz i t).2 with
     | true =>
@@ -175,9 +231,9 @@ theorem stream_balanced (k : Kind) (w : Wire) (sz : Sizes) : ∀ (turns : List T
       · exact ⟨s, rfl, hb⟩
       · refine ⟨_, rfl, ?_⟩
         intro x hx
-        simp at hx
+        simp only [List.mem_cons] at hx
         rcases hx with hx | hx
-        · subst hx; split <;> simp
+        · subst hx; exact hob _ _
         · exact hb x hx
     | false =>
       simp only [Bool.false_eq_true, if_false]
@@ -188,8 +244,8 @@ theorem stream_balanced (k : Kind) (w : Wire) (sz : Sizes) : ∀ (turns : List T
       · exact ⟨[], rfl, by simp⟩
       · refine ⟨_, rfl, ?_⟩
         intro x hx
-        simp at hx
-        subst hx; split <;> simp
+        simp only [List.mem_cons, List.not_mem_nil, or_false] at hx
+        subst hx; exact hob _ _
 
 /-- **balanced**: for every call script, the dispatch path never releases a batch it does not hold
 and ends with no framework allocation outstanding; during a stream no handler ever sees more than
@@ -199,13 +255,16 @@ theorem balanced (c : Call) :
       match c with
       | .unary _ _ => ∀ x ∈ s, x = 0
       | .unaryExt _ _ => ∀ x ∈ s, x = 0
-      | .stream _ _ sz _ => ∀ x ∈ s, x = 0 ∨ x = sz.c
+      | .unaryIn _ sz => ∀ x ∈ s, x = sz.x
+      | .stream _ _ sz _ => ∀ x ∈ s, x = 0 ∨ x = sz.c ∨ x = sz.x
       | .castInput _ _ sz => ∀ x ∈ s, x = sz.e ∨ x = sz.c + sz.e := by
   cases c with
   | unary m sz =>
     cases m <;> simp [callEvents, run, release, outstanding]
   | unaryExt mode sz =>
     cases mode <;> simp [callEvents, run, release, outstanding]
+  | unaryIn ok sz =>
+    cases ok <;> simp [callEvents, run, release, outstanding]
   | stream k w sz turns =>
     obtain ⟨s, hs, hb⟩ := stream_balanced k w sz turns 0 []
     exact ⟨s, hs, by simpa [outstanding] using hb⟩
@@ -220,10 +279,10 @@ def sz0 : Sizes := { r := 256, e := 128, c := 64 }
 /-- an exchange with casts: emit, refused double emit, error after emit, and a turn that is never
 reached -/
 example : run [] (callEvents (.stream .xch .i32 sz0
-    [⟨1, .ok, false, false, false⟩, ⟨3, .ok, false, false, false⟩, ⟨1, .err, false, false, false⟩])) = some ([], [64, 64]) := by decide
+    [⟨1, .ok, false, false, false, false, .none⟩, ⟨3, .ok, false, false, false, false, .none⟩, ⟨1, .err, false, false, false, false, .none⟩])) = some ([], [64, 64]) := by decide
 
 example : run [] (callEvents (.stream .prod .i64 sz0
-    [⟨1, .ok, false, false, false⟩, ⟨0, .ok, false, false, false⟩])) = some ([], [0, 0]) := by decide
+    [⟨1, .ok, false, false, false, false, .none⟩, ⟨0, .ok, false, false, false, false, .none⟩])) = some ([], [0, 0]) := by decide
 
 /-- the ledger does notice a missing release: drop the collector's release and bytes stay -/
 example : run [] [.sample, .acq (.emit 0 0) 128] = some ([(.emit 0 0, 128)], [0]) := by decide
@@ -232,12 +291,23 @@ example : run [] [.rel (.cast 0)] = none := by decide
 /-- the pipe breaks while turn 1's output is written: the turn still releases everything, turn 2
 never runs -/
 example : run [] (callEvents (.stream .xch .i32 sz0
-    [⟨1, .ok, false, false, false⟩, ⟨1, .ok, false, true, false⟩, ⟨1, .ok, false, false, false⟩])) =
+    [⟨1, .ok, false, false, false, false, .none⟩, ⟨1, .ok, false, true, false, false, .none⟩, ⟨1, .ok, false, false, false, false, .none⟩])) =
     some ([], [64, 64]) := by decide
 
 /-- external cap: refused before the upload, and uploaded-then-refused -/
 example : run [] (callEvents (.unaryExt .refusedPre sz0)) = some ([], [0]) := by decide
 example : run [] (callEvents (.unaryExt .refusedPost sz0)) = some ([], [0]) := by decide
+
+/-- external inputs on a pipe exchange: resolved and cast (the handler sees only the cast batch),
+resolved without a cast (it sees the resolved batch), refused -/
+example : run [] (callEvents (.stream .xch .i32 { sz0 with x := 192 }
+    [⟨1, .ok, false, false, false, false, .ok⟩, ⟨1, .ok, false, false, false, false, .err⟩])) = some ([], [64]) := by decide
+example : run [] (callEvents (.stream .xch .i64 { sz0 with x := 192 }
+    [⟨1, .ok, false, false, false, false, .ok⟩, ⟨1, .err, false, false, false, false, .ok⟩])) = some ([], [192, 192]) := by decide
+example : run [] (callEvents (.unaryIn true { sz0 with x := 192 })) = some ([], [192]) := by decide
+/-- the state stops being serializable after turn 1 (HTTP exchange): the emitted batch is released -/
+example : run [] (callEvents (.stream .xch .i64 sz0
+    [⟨1, .ok, false, false, false, false, .none⟩, ⟨1, .ok, false, false, false, true, .none⟩])) = some ([], [0, 0]) := by decide
 
 /-- a two-column input whose second column fails the cast: nothing stays behind -/
 example : run [] (callEvents (.castInput .two true sz0)) = some ([], [128]) := by decide
